@@ -69,7 +69,7 @@ func genOrderedSchema(r *sim.RNG, depth int, uniq *int) map[string]interface{} {
 		m := map[string]interface{}{}
 		ties := r.Bool(0.5)
 		n := 1 + r.Intn(5)
-		if depth == 0 && r.Intn(6) == 0 {
+		if depth == 0 && r.Intn(3) == 0 {
 			n = 13 + r.Intn(30) // large maps: sort.Sort leaves insertion sort above 12 elements
 		}
 		for i := 0; i < n; i++ {
